@@ -419,15 +419,37 @@ fn server_leg(rep: &mut Report, bases: &[Base]) {
         std::fs::write(&seed, &base.source[..base.src_chunks[0].1]).unwrap();
         let nreq_max = 2 + base.descs.len();
         let faults = [HF::WrongBytes, HF::ErrorPage(404), HF::ErrorPage(500), HF::ShortBody(1), HF::ShortBody(0), HF::FullFile, HF::Extra(3), HF::Empty, HF::Status(500), HF::CutAfter(1), HF::LengthLie(4)];
+        // a server that goes silent in the middle of a body: the receive timeout must end in a failure
+        for at in [1usize, 2] {
+            if at >= nreq_max {
+                continue;
+            }
+            let mut script = vec![HF::None; at];
+            script.push(HF::Stall(1));
+            lab.server.arm(&base.bytes, Script { faults: script, splits: vec![], keep_alive: false });
+            let _ = std::fs::remove_file(&out);
+            let r = cli_clone(&lab.rt, cli_clone_args(&lab.server.url(), &out, &["--http-retry-count".to_string(), "0".to_string(), "--http-timeout".to_string(), "1".to_string()]));
+            agg.add("server_fault_cases", 1);
+            agg.add("server_stall_cases", 1);
+            if let Ok(Ok(())) = r {
+                let o = std::fs::read(&out).unwrap_or_default();
+                if o != base.source {
+                    agg.viol("success-with-wrong-output", || json!({"leg": "cli-http", "base": bases[bi].name, "fault": "server goes silent after 1 body byte, --http-timeout 1", "at_request": at, "output": hex(&o)}));
+                }
+            }
+        }
         for at in 0..nreq_max {
             for f in &faults {
-                for (variant, extra) in [("plain", vec![]), ("verify-output", vec!["--verify-output".to_string()]), ("seeded", vec!["--seed".to_string(), seed.to_str().unwrap().to_string()])] {
+                for (variant, extra, persistent) in [("plain", vec![], false), ("verify-output", vec!["--verify-output".to_string()], false), ("seeded", vec!["--seed".to_string(), seed.to_str().unwrap().to_string()], false),
+                    ("plain", vec![], true), ("seeded", vec!["--seed".to_string(), seed.to_str().unwrap().to_string()], true)] {
+                    // retry budget 0 with the fault once, or budget 2 with the fault persisting over every further
+                    // request: a failure that outlasts the budget must still end in a failure
                     let mut script = vec![HF::None; at];
-                    script.push(f.clone());
+                    script.extend(std::iter::repeat(f.clone()).take(if persistent { 40 } else { 1 }));
                     lab.server.arm(&base.bytes, Script { faults: script, splits: vec![], keep_alive: false });
                     let _ = std::fs::remove_file(&out);
                     let mut ex = extra.clone();
-                    ex.extend(["--http-retry-count".to_string(), "0".to_string()]);
+                    ex.extend(["--http-retry-count".to_string(), if persistent { "2" } else { "0" }.to_string(), "--http-retry-delay".to_string(), "0".to_string()]);
                     let r = cli_clone(&lab.rt, cli_clone_args(&lab.server.url(), &out, &ex));
                     agg.add("server_fault_cases", 1);
                     let hit = lab.server.log().len() > at;
@@ -438,7 +460,7 @@ fn server_leg(rep: &mut Report, bases: &[Base]) {
                         Ok(Ok(())) => {
                             let o = std::fs::read(&out).unwrap_or_default();
                             if o != base.source {
-                                agg.viol("success-with-wrong-output", || json!({"leg": "cli-http", "base": bases[bi].name, "fault": format!("{:?}", f), "at_request": at, "variant": variant, "output": hex(&o)}));
+                                agg.viol("success-with-wrong-output", || json!({"leg": "cli-http", "base": bases[bi].name, "fault": format!("{:?}", f), "at_request": at, "variant": variant, "persistent_with_retry_budget_2": persistent, "output": hex(&o)}));
                             } else {
                                 agg.add("server_faults_harmless", 1);
                             }
